@@ -519,7 +519,19 @@ impl DtlsInner {
         is_client: bool,
     ) -> Result<Bytes> {
         if record.epoch == 0 {
-            return Ok(record.payload.clone());
+            // Plaintext records belong to the handshake. Application data is never
+            // sent in epoch 0, and once the peer's ChangeCipherSpec has moved the
+            // read epoch on, its alerts are protected too. Refusing both keeps an
+            // off-path sender from injecting data or a close_notify in clear.
+            return match record.content_type {
+                ContentType::ApplicationData => Err(anyhow::anyhow!(
+                    "plaintext ApplicationData record refused"
+                )),
+                ContentType::Alert if ctx.read_epoch > 0 => Err(anyhow::anyhow!(
+                    "plaintext Alert record after ChangeCipherSpec refused"
+                )),
+                _ => Ok(record.payload.clone()),
+            };
         }
 
         // Sequence number for AAD is epoch (16) + seq (48)
